@@ -304,6 +304,9 @@ class Lexer(object):
                             return tok
                         elif self.with_comments:
                             self.hidden_tokens.append(tok)
+                    if self.next_tokens:
+                        # semicolon supplied after a restricted token
+                        return self.next_tokens.pop()
                     continue
                 else:
                     return tok
@@ -377,6 +380,7 @@ class Lexer(object):
         return token
 
     def _get_update_token(self):
+        lt_was_pending = self.lt_pending
         self._set_tokens(self.get_lexer_token())
 
         if self.cur_token is not None:
@@ -413,13 +417,20 @@ class Lexer(object):
                 )
 
         # insert semicolon before restricted tokens
-        # See section 7.9.1 ECMA262
+        # See section 7.9.1 ECMA262; comments between the keyword and
+        # the line terminator do not count, and a comment containing a
+        # line terminator is one (section 7.4).  Only the first line
+        # terminator after the keyword supplies the semicolon.
         if (self.cur_token is not None
-            and self.cur_token.type == 'LINE_TERMINATOR'
-            and self.prev_token is not None
-            and self.prev_token.type in ['BREAK', 'CONTINUE',
-                                         'RETURN', 'THROW']):
-            return self._create_semi_token(self.cur_token)
+            and self.lt_pending and not lt_was_pending
+            and self.cur_token_real is not None
+            and self.cur_token_real.type in ['BREAK', 'CONTINUE',
+                                             'RETURN', 'THROW']):
+            semi = self._create_semi_token(self.cur_token)
+            if self.cur_token.type == 'LINE_TERMINATOR':
+                return semi
+            # the comment is still delivered; the semicolon follows it
+            self.next_tokens.append(semi)
 
         return self.cur_token
 
